@@ -236,3 +236,37 @@ def no_stale_memo(P: Program, R: Report, rule: str) -> None:
             R.ok(rule, m, st, label, f"{n_writers} writer(s), all invalidate", via="who-writes")
         else:
             R.undecided(rule, m, st, label, f"what `self.{M}` memoises was not recognised (reads {sorted(reads)})")
+
+
+def no_autoinsert_lookup(P: Program, R: Report, rule: str) -> None:
+    """A `defaultdict` inserts a key when it is merely READ with a key it does not have.  Inside a function that is a
+    convenient way to group; handed out - returned, or stored on the object as one of its lookups - it turns every
+    `lookup[id]` of a missing id into a silent write (a phantom track id with an empty node list), so a pure query, or an
+    edit that is refused afterwards, changes the track lookups.  In the annotators and the data model a local bound to
+    `defaultdict(..)` leaves its function only as `dict(local)` (or a comprehension over it)."""
+    n = 0
+    for f in P.functions.values():
+        if not any(k in f.qname for k in (".annotators.", ".data_model.", ".features.")):
+            continue
+        dd = {t.id for s in ast.walk(f.node) if isinstance(s, ast.Assign) and isinstance(s.value, ast.Call) and call_name(s.value) == "defaultdict"
+              for t in s.targets if isinstance(t, ast.Name)}
+        if not dd:
+            continue
+        n += 1
+        label = f"{f.short}: an auto-inserting map ({', '.join(sorted(dd))}) does not leave the function as it is"
+        bad = None
+        for s in ast.walk(f.node):
+            if isinstance(s, ast.Return) and s.value is not None:
+                vals = s.value.elts if isinstance(s.value, ast.Tuple) else [s.value]
+                for v in vals:
+                    if isinstance(v, ast.Name) and v.id in dd:
+                        bad = s
+            if isinstance(s, ast.Assign) and isinstance(s.value, ast.Name) and s.value.id in dd and any(isinstance(t, ast.Attribute) for t in s.targets):
+                bad = s
+        if bad is not None:
+            R.fail(rule, f, bad, label, f"`{norm(bad)[:70]}` hands the defaultdict out: from then on reading the lookup with an id it does not have inserts that id "
+                   "with an empty list - a query (or a refused edit that only looked) changes the track lookups")
+        else:
+            R.ok(rule, f, f.node, label, "converted or kept local", via="syntax")
+    if n == 0:
+        R.ok(rule, "annotators / data model", "", "no auto-inserting map is built in the annotators or the data model", via="syntax")
